@@ -7,7 +7,7 @@ From Knut Require Import Model.Str Model.Dec Model.Date Model.Account Model.Ledg
 From Knut Require Import Spec.PrintSpec.
 From Knut Require Import Proofs.DecEqProofs Proofs.DecNormalForm Proofs.OrderProofs Proofs.OrderCmd Proofs.CheckQuant
      Proofs.PrintProofs Proofs.PrintRegroup Proofs.PrintRequant Proofs.PrintNormal Proofs.QuantSim Proofs.QuantReport Proofs.QuantStages
-     Proofs.PrintText.
+     Proofs.QuantValue Proofs.QuantText Proofs.PrintText.
 Import ListNotations.
 Open Scope bool_scope.
 Open Scope Z_scope.
@@ -60,4 +60,62 @@ Proof.
   exists (reparsed_dirs (b_days b)). split; [exact Hr|]. intros cfg Hval.
   eapply ceq_eq_trans; [apply ceq_eq_sym, (reports_reparsed_unvalued ss b cfg Hl Hval)|].
   exact (proj1 (reports_printed_dirs ss b (proj1 HL) Hn Hl) cfg).
+Qed.
+
+(* ------------------------------------------------------------------ every configuration *)
+
+Theorem balance_text_v cfg tc X X' b b' :
+  load X = COk b -> load X' = COk b' ->
+  Forall2 day_v (b_days b) (b_days b') -> b_min b = b_min b' -> b_max b = b_max b' ->
+  ceq eq (balance_text cfg tc X) (balance_text cfg tc X').
+Proof.
+  intros HX HX' Hd Hmin Hmax. unfold balance_text.
+  eapply ceq_bind; [apply (balance_table_v cfg X X' b b'); assumption|].
+  intros t t' Ht. cbn [ceq]. now apply render_text_v.
+Qed.
+
+(* the re-read printed sequence has the reports of the printed sequence *)
+Theorem reports_reparsed ss b :
+  load ss = COk b ->
+  (forall cfg, ceq eq (balance_csv cfg (printed_dirs (b_days b))) (balance_csv cfg (reparsed_dirs (b_days b)))) /\
+  (forall cfg tc, ceq eq (balance_text cfg tc (printed_dirs (b_days b))) (balance_text cfg tc (reparsed_dirs (b_days b)))).
+Proof.
+  intros Hl. destruct (load_days ss b Hl) as (ds & Hp & ->).
+  assert (Hv : Forall2 day_v (sort_days (b_days (builder_of ds))) (map rq_day (sort_days (b_days (builder_of ds))))).
+  { apply days_v_rq, sort_days_canonical, (builder_days_canonical ds), (parsed_dir_ok ss ds Hp). }
+  split; intros cfg; [|intros tc].
+  - eapply (balance_csv_v cfg _ _ _ _ (load_printed_dirs ss ds Hp) (load_reparsed_dirs ss ds Hp)); cbn [b_days b_min b_max]; try reflexivity. exact Hv.
+  - eapply (balance_text_v cfg tc _ _ _ _ (load_printed_dirs ss ds Hp) (load_reparsed_dirs ss ds Hp)); cbn [b_days b_min b_max]; try reflexivity. exact Hv.
+Qed.
+
+(* C09_same_reports *)
+Theorem print_same_reports l ss text :
+  lex_ok ss -> no_conflicting_prices ss -> printed (print_cmd l) ss text ->
+  exists ss', reparse text = MOk ss' /\
+    (forall cfg, ceq eq (balance_csv cfg ss') (balance_csv cfg ss)) /\
+    (forall cfg tc, ceq eq (balance_text cfg tc ss') (balance_text cfg tc ss)).
+Proof.
+  intros HL Hn Hpr. destruct (printed_text l ss text HL Hpr) as (b & Hl & _ & Hr).
+  exists (reparsed_dirs (b_days b)). split; [exact Hr|].
+  destruct (reports_reparsed ss b Hl) as (R1 & R2). destruct (reports_printed_dirs ss b (proj1 HL) Hn Hl) as (P1 & P2).
+  split; [intros cfg|intros cfg tc].
+  - eapply ceq_eq_trans; [apply ceq_eq_sym, R1|apply P1].
+  - eapply ceq_eq_trans; [apply ceq_eq_sym, R2|apply P2].
+Qed.
+
+(* all of C09 for one and the same re-read journal *)
+Theorem print_roundtrip l ss text :
+  lex_ok ss -> no_conflicting_prices ss -> printed (print_cmd l) ss text ->
+  exists ss', reparse text = MOk ss' /\ accepted l ss' /\ printed (print_cmd l) ss' text /\
+    (forall cfg, ceq eq (balance_csv cfg ss') (balance_csv cfg ss)) /\
+    (forall cfg tc, ceq eq (balance_text cfg tc ss') (balance_text cfg tc ss)).
+Proof.
+  intros HL Hn Hpr. destruct (printed_text l ss text HL Hpr) as (b & Hl & _ & Hr).
+  exists (reparsed_dirs (b_days b)). split; [exact Hr|].
+  split; [apply (accepted_reparsed l ss b (proj1 HL) Hl), (printed_fixed_accepted l ss text Hpr)|].
+  split; [exact (print_reparsed_dirs l ss b text (proj1 HL) Hl Hpr)|].
+  destruct (reports_reparsed ss b Hl) as (R1 & R2). destruct (reports_printed_dirs ss b (proj1 HL) Hn Hl) as (P1 & P2).
+  split; [intros cfg|intros cfg tc].
+  - eapply ceq_eq_trans; [apply ceq_eq_sym, R1|apply P1].
+  - eapply ceq_eq_trans; [apply ceq_eq_sym, R2|apply P2].
 Qed.
